@@ -296,6 +296,9 @@ def qforall(vs, body, patterns=None):
         good = [p for p in patterns if _pattern_ok(p, vs)]
         if good:
             try:
+                import os as _os
+                if _os.environ.get("PYVC_QID"):
+                    return z3.ForAll(vs, body, patterns=good, qid=str(good[0]).replace("\n", " ")[:70])
                 return z3.ForAll(vs, body, patterns=good)
             except z3.Z3Exception:
                 pass
